@@ -717,6 +717,22 @@ def _workbook_readback(tier="quick", seed=0):
         ch_.replace_data(cd)
         return ch_._chartSpace, ch_.part.chart_workbook.xlsx_part.blob
 
+    # one chart-data object used twice with changes in between: the second chart XML and the second workbook describe the same data
+    cd_r = CategoryChartData()
+    cd_r.categories = ["Q1", "Q2"]
+    sr_r = cd_r.add_series("first", (1, 2))
+    _ = ChartXmlWriter(XL_CHART_TYPE.COLUMN_CLUSTERED, cd_r).xml, cd_r.xlsx_blob, cd_r.categories.leaf_count
+    cd_r.add_category("Q3")
+    sr_r.add_data_point(3.5)
+    cd_r.add_series("second", (7, None, 9))
+    cases.append(("chart data re-used after additions", XL_CHART_TYPE.COLUMN_CLUSTERED, cd_r))
+    xy_r = XyChartData()
+    sx_r = xy_r.add_series("xy")
+    sx_r.add_data_point(1, 2)
+    _ = ChartXmlWriter(XL_CHART_TYPE.XY_SCATTER, xy_r).xml, xy_r.xlsx_blob
+    sx_r.add_data_point(3, 4)
+    xy_r.add_series("xy2").add_data_point(5, 6)
+    cases.append(("xy data re-used after additions", XL_CHART_TYPE.XY_SCATTER, xy_r))
     both = []
     for label, ctype, cd in cases:
         both.append((label, ctype, cd, False))
